@@ -21,9 +21,29 @@
        clause (C13_hence_step_exec_refuted, replayed on util.sh, repaired in
        /repo 604d158; C13_hence_step_exec_holds_now for the present source); FALSE for
        robsd-regress-html taken by itself (C13_html_exit0_never_failure), true
-       for it composed with step_exec's exit status (C13_hence_html_composed). *)
+       for it composed with step_exec's exit status (C13_hence_html_composed);
+       the same for robsd-report: a step recorded with exit 0 whose log has a
+       FAILED line is neither counted nor shown (C13_report_exit0_failed_omitted),
+       with step_exec's status it is both (C13_hence_report_composed);
+     - "for every tee schedule" (C13_hence_step_exec_holds_now) rests on an
+       ASSUMPTION that no theorem covers: the shell waits for the LAST command of
+       the pipeline (tee) before it runs the command after the pipeline (POSIX sh
+       2.9.2).  The model has no shell; it takes "after the pipeline" to mean "the
+       file holds the complete log";
+     - the exit field of the step file: the orchestrator models (Orch/) take the
+       status of a step's command as a free parameter; C13_recorded_exit /
+       C13_hence_recorded instantiate it with step_exec's return value - an
+       instantiation, not a derivation from util.sh (the three lines of
+       step_exec_job that hand the value on are pinned as text).
+
+   The ties to the source text come last; C13_tie_trim and C13_tie_report_flags
+   are closed by computation on the generated constants HERE, so that a variant
+   of regress_log_trim / of the flags in report.c breaks only them. *)
 From Robsd Require Import RegressLog.RLSpec RegressLog.RLProofs RegressLog.RLMarkers
-  RegressLog.RLLines RegressLog.RLExit RegressLog.RLTrim RegressLog.RLCallDefs RegressLog.RLCallers RegressLog.RLTie.
+  RegressLog.RLLines RegressLog.RLExit RegressLog.RLTrim RegressLog.RLCallDefs RegressLog.RLCallers RegressLog.RLTie
+  RegressLog.RLOracles RegressLog.RLMore RegressLog.RLStepSpec RegressLog.RLTrimTie
+  RegressLog.RLOrchBridge RegressLog.RLReportCaller RegressLog.RLComposed.
+From Robsd Require Report.ReportDefs Orch.OrchDefs.
 From RobsdGen Require Import Gen_RegressLog.
 Local Open Scope N_scope.
 
@@ -81,6 +101,13 @@ Proof.
 Qed.
 Print Assumptions C13_markers.
 
+(* ... nor necessary: "==== ====" is a marker and has not the documented shape *)
+Theorem C13_marker_regex_not_necessary :
+  ismarker_regress (mk_regress ++ 32 :: mk_regress) = true /\
+  ~ exists x, mk_regress ++ 32 :: mk_regress = mk_regress ++ 32 :: x ++ 32 :: mk_regress.
+Proof. exact marker_regex_not_necessary. Qed.
+Print Assumptions C13_marker_regex_not_necessary.
+
 (* the blocks of one file as a relation on its lines, and that relation has
    exactly one solution, the one the specification computes *)
 Theorem C13_blocks_determined : forall fl f bl,
@@ -114,6 +141,25 @@ Theorem C13_lines_sound_complete : forall (sel : bytes -> bool) Ls bls,
   map (fun b => last b []) (concat bls) = concat (map (filter sel) Ls).
 Proof. exact lines_sound_complete. Qed.
 Print Assumptions C13_lines_sound_complete.
+
+(* the two theorems above composed, on what the command prints for ANY list of
+   readable files ([out]), read back line by line:
+     - it is blocks with one empty line between consecutive blocks, and the
+       lines of the blocks are a subsequence of the lines of the files (file
+       order, line order; nothing invented, duplicated or reordered);
+     - hence so are its non-empty lines (the separators are the only lines that
+       need not be log lines);
+     - its selected lines are exactly the selected lines after the leading trace
+       block of each file, with multiplicity, in order. *)
+Theorem C13_main_output_lines : forall fl fs,
+  fNEWLINE fl = false ->
+  let out := snd (main fl true (map Some fs)) in
+  (exists bl, getlines out = with_separators bl /\ sublist (concat bl) (concat (map clines fs))) /\
+  sublist (filter nonempty_line (getlines out)) (concat (map clines fs)) /\
+  filter (selected fl) (getlines out) =
+    concat (map (fun f => filter (selected fl) (drop_trace (clines f))) fs).
+Proof. exact main_output_lines. Qed.
+Print Assumptions C13_main_output_lines.
 
 (* what a block reaches back to: it ends in its only selected line and holds
    no marker except possibly as its first line *)
@@ -165,6 +211,27 @@ Proof.
 Qed.
 Print Assumptions C13_oracle_accepts_model.
 
+(* the oracles the harness applies to peek, trim and step_exec are EXACT: each
+   accepts the model's answer and nothing else ([spec_ok_peek] above accepts any
+   positive count; the harness uses [spec_ok_peek_exact]); [spec_ok_step] is the
+   "Hence" clause decided on the lines of the log without the model of the
+   extractor, and what it accepts is: returned <> 0 iff the runner failed or
+   (regress mode and a failing line) *)
+Theorem C13_oracles_exact : forall fl f k out regress rc e,
+  (spec_ok_peek_exact fl f k = true <-> k = peek fl f) /\
+  (spec_ok_trim f out = true <-> out = trim f) /\
+  spec_ok_step regress rc f (step_exec_exit regress rc (Some f)) = true /\
+  (spec_ok_step regress rc f e = true ->
+     (e <> 0 <-> rc <> 0 \/ (regress = true /\ failing_line f))) /\
+  (failing_lineb f = true <-> failing_line f).
+Proof.
+  exact (fun fl f k out regress rc e =>
+    conj (oracle_peek_exact fl f k) (conj (oracle_trim_exact f out)
+      (conj (spec_ok_step_accepts_model regress rc f)
+        (conj (spec_ok_step_meaning regress rc f e) (failing_lineb_spec f))))).
+Qed.
+Print Assumptions C13_oracles_exact.
+
 (* ---- the "Hence" clause, caller by caller ---------------------------------------------- *)
 
 (* util-regress.sh regress_failed (robsd-regress-log -FPn): exact *)
@@ -190,8 +257,10 @@ Print Assumptions C13_hence_step_exec.
    the check inside the pipeline - the hypothesis below, FALSE of the present
    source - the clause held only when the whole log had reached the file and is
    refuted by a prefix (replayed on util.sh: findings/C13_step_exec_log_race.{sh,md,diff}).
-   The statement that holds now is C13_hence_step_exec_holds_now below. *)
-Theorem C13_hence_step_exec_refuted :
+   The statement that holds now is C13_hence_step_exec_holds_now (with the ties, at the end).
+   A Remark, not a Theorem: its hypothesis is false today, it says nothing about
+   the present source and is not counted among the results. *)
+Remark C13_hence_step_exec_refuted :
   step_exec_checks_inside_pipeline = true ->
   ((forall rc log, failing_line log ->
       step_exec_run step_exec_checks_inside_pipeline true rc log log = 1) /\
@@ -200,17 +269,6 @@ Theorem C13_hence_step_exec_refuted :
   ~ hence_step_exec_statement.
 Proof. exact (fun H => conj (proj2 hence_step_exec_shipped H) (hence_step_exec_statement_false H)). Qed.
 Print Assumptions C13_hence_step_exec_refuted.
-
-(* the source as it is now: the check comes after the pipeline, so the clause
-   holds for every schedule of tee.  Closed by [eq_refl] on the translated
-   switch: should the check move back inside the pipeline, the translator flips
-   the switch, this proof no longer checks and the late-tee lane of the harness
-   produces the failing run. *)
-Theorem C13_hence_step_exec_holds_now : forall rc log seen,
-  failing_line log ->
-  step_exec_run step_exec_checks_inside_pipeline true rc log seen = 1.
-Proof. exact (hence_step_exec_if_fixed eq_refl). Qed.
-Print Assumptions C13_hence_step_exec_holds_now.
 
 (* regress-html by itself: a recorded exit status of 0 never gives a failure
    status, whatever the log holds - the clause is false for this caller ... *)
@@ -226,6 +284,129 @@ Theorem C13_hence_html_composed : forall timeout rc log,
   hfailure (html_status timeout (step_exec_exit true rc (Some log)) log) = true.
 Proof. exact hence_html_composed. Qed.
 Print Assumptions C13_hence_html_composed.
+
+(* robsd-report (report.c regress_report_skip_step / regress_report_step_log /
+   number_of_failures_report_status, as modelled by Report/ReportDefs.v).  A
+   regress suite recorded with exit 0 gets a section iff its log has a SKIPPED /
+   DISABLED / EXPECTED_FAIL line after the leading trace block ... *)
+Theorem C13_report_exit0_decision : forall cfg fs r log,
+  ReportTypes.r_exit r = 0%Z -> Gen_Report.row_skipped (ReportTypes.r_skip r) = false ->
+  ReportDefs.is_regress_step cfg (ReportTypes.r_name r) = true ->
+  ReportDefs.is_regress_quiet cfg (ReportTypes.r_name r) = false ->
+  ReportTypes.r_log r <> [] -> ReportDefs.f_log fs (ReportTypes.r_log r) = ReportDefs.FData log ->
+  (row_decision ReportTypes.Regress cfg fs r = ReportDefs.SkShow <-> skipped_or_xfailed_line log) /\
+  (row_decision ReportTypes.Regress cfg fs r = ReportDefs.SkOmit <-> ~ skipped_or_xfailed_line log).
+Proof. exact report_exit0_decision. Qed.
+Print Assumptions C13_report_exit0_decision.
+
+(* ... so, NEGATIVE, the clause is false for the report taken by itself, exactly
+   as for the HTML view: there is a log with a FAILED line such that a step
+   recorded with exit 0 and that log leaves no trace - no section, and the
+   failure count (taken from the exit field alone) does not move *)
+Theorem C13_report_exit0_failed_omitted :
+  exists log, failing_line log /\
+    forall cfg fs r rs,
+      ReportTypes.r_exit r = 0%Z -> ReportTypes.r_log r <> [] ->
+      ReportDefs.f_log fs (ReportTypes.r_log r) = ReportDefs.FData log ->
+      ReportDefs.steps_loop ReportTypes.Regress cfg fs (r :: rs) =
+        ReportDefs.steps_loop ReportTypes.Regress cfg fs rs /\
+      (forall rows, ReportDefs.count_status (r :: rows) = ReportDefs.count_status rows).
+Proof. exact report_exit0_failed_omitted. Qed.
+Print Assumptions C13_report_exit0_failed_omitted.
+
+(* POSITIVE, composed: with the exit status step_exec computes from the same log
+   the step is counted and gets a section (Exit: 1) whose body is the extracted
+   blocks, which are not empty *)
+Theorem C13_hence_report_composed : forall cfg fs r rs rc log,
+  failing_line log ->
+  ReportTypes.r_exit r = Z.of_N (step_exec_exit true rc (Some log)) ->
+  Gen_Report.row_skipped (ReportTypes.r_skip r) = false -> ReportTypes.r_log r <> [] ->
+  ReportDefs.f_log fs (ReportTypes.r_log r) = ReportDefs.FData log ->
+  let bl := file_blocks (ReportDefs.fl_log (ReportDefs.is_regress_quiet cfg (ReportTypes.r_name r))) log in
+  bl <> [] /\
+  ReportDefs.steps_loop ReportTypes.Regress cfg fs (r :: rs) =
+    match ReportDefs.steps_loop ReportTypes.Regress cfg fs rs with
+    | ReportDefs.RErr => ReportDefs.RErr
+    | ReportDefs.ROk ss =>
+        ReportDefs.ROk (ReportDefs.mksec (ReportTypes.r_name r) 1 (DurationDefs.step_duration r) (ReportTypes.r_log r)
+                          (10 :: render_from false 0 bl) :: ss)
+    end /\
+  (forall rows, let n := length (filter (fun x => negb (ReportTypes.r_exit x =? 0)%Z) rows) in
+     ReportDefs.count_status (r :: rows) =
+       Decimal.render_Z (Z.of_nat (S n)) ++ ReportDefs.str_failure ++ (if Nat.ltb 1 (S n) then [115] else [])).
+Proof. exact report_after_step_exec. Qed.
+Print Assumptions C13_hence_report_composed.
+
+(* the exit field.  The orchestrator models take the status of a step's command
+   as a free parameter (OrchDefs: section variable exit_of; ResumeDefs.orch: the
+   third component of a configured step).  INSTANTIATED with step_exec's return
+   value for runner status [rc_of i] and complete log [log_of i]: the record
+   step_exec_job writes when job i finishes, under any schedule, is
+   (i, name, step_exec_exit true rc log, skip 0), the hook gets the same value,
+   and job_step writes nothing else but the in-flight -1; the sequential loop
+   records the same and stops after a non-zero one *)
+Theorem C13_recorded_exit : forall (rc_of : Z -> N) (log_of name_of : Z -> bytes),
+  let e := fun i => Z.of_N (step_exec_exit true (rc_of i) (Some (log_of i))) in
+  (forall s i, OrchDefs.phase_of (OrchDefs.running s) i = Some OrchDefs.JRunning ->
+     exists s', OrchDefs.job_step e name_of s i = Some s' /\
+       OrchDefs.sfile_ s' = ResumeDefs.upsert (ResumeDefs.mkrow i (name_of i) (e i) 0) (OrchDefs.sfile_ s) /\
+       In (ResumeDefs.mkrow i (name_of i) (e i) 0) (OrchDefs.sfile_ s') /\
+       OrchDefs.evlog s' = OrchDefs.evlog s ++ [OrchDefs.EFinish i (e i); OrchDefs.EHook (name_of i) (e i)]) /\
+  (forall s i s', OrchDefs.job_step e name_of s i = Some s' ->
+     OrchDefs.sfile_ s' = ResumeDefs.upsert (ResumeDefs.mkrow i (name_of i) (-1) 0) (OrchDefs.sfile_ s) \/
+     OrchDefs.sfile_ s' = ResumeDefs.upsert (ResumeDefs.mkrow i (name_of i) (e i) 0) (OrchDefs.sfile_ s)) /\
+  (forall i rest f, ResumeDefs.skipped f (name_of i) = false -> beq (name_of i) ResumeDefs.END = false ->
+     exists f1 tail,
+       f1 = ResumeDefs.upsert (ResumeDefs.mkrow i (name_of i) (-1) 0) f /\
+       ResumeDefs.orch ((i, name_of i, e i) :: rest) f =
+         (f1, []) :: (ResumeDefs.upsert (ResumeDefs.mkrow i (name_of i) (e i) 0) f1, [i]) :: tail /\
+       (e i <> 0%Z -> tail = [])) /\
+  (forall i, (e i <> 0%Z <-> rc_of i <> 0 \/ failing_line (log_of i)) /\
+             (failing_line (log_of i) -> e i = 1%Z) /\
+             (~ failing_line (log_of i) -> e i = Z.of_N (rc_of i))).
+Proof.
+  exact (fun rc_of log_of name_of =>
+    conj (job_records_step_exec_exit rc_of log_of name_of)
+      (conj (job_step_rows rc_of log_of name_of)
+        (conj (orch_records_step_exec_exit rc_of log_of name_of) (regress_exit_of_spec rc_of log_of)))).
+Qed.
+Print Assumptions C13_recorded_exit.
+
+(* from the runner to both views in one statement: the row written when a
+   regress job finishes carries e = step_exec's return value; e <> 0 iff the
+   runner failed or the log has a failing line; regress-html, reading e back
+   and peeking into the same log, shows a failure status iff that holds; and
+   robsd-report, for a row with that exit field and that log, counts a failure
+   and prints the section with the extracted blocks *)
+Theorem C13_hence_recorded : forall (rc_of : Z -> N) (log_of name_of : Z -> bytes) s i,
+  OrchDefs.phase_of (OrchDefs.running s) i = Some OrchDefs.JRunning ->
+  exists s' e,
+    OrchDefs.job_step (fun j => Z.of_N (step_exec_exit true (rc_of j) (Some (log_of j)))) name_of s i = Some s' /\
+    In (ResumeDefs.mkrow i (name_of i) e 0) (OrchDefs.sfile_ s') /\
+    e = Z.of_N (step_exec_exit true (rc_of i) (Some (log_of i))) /\
+    (e <> 0%Z <-> rc_of i <> 0 \/ failing_line (log_of i)) /\
+    (forall timeout, timeout <> 0 ->
+       (hfailure (html_status timeout (Z.to_N e) (log_of i)) = true <->
+        rc_of i <> 0 \/ failing_line (log_of i))) /\
+    (failing_line (log_of i) ->
+     forall cfg fs r rs,
+       ReportTypes.r_exit r = e -> Gen_Report.row_skipped (ReportTypes.r_skip r) = false ->
+       ReportTypes.r_log r <> [] -> ReportDefs.f_log fs (ReportTypes.r_log r) = ReportDefs.FData (log_of i) ->
+       let bl := file_blocks (ReportDefs.fl_log (ReportDefs.is_regress_quiet cfg (ReportTypes.r_name r))) (log_of i) in
+       bl <> [] /\
+       ReportDefs.steps_loop ReportTypes.Regress cfg fs (r :: rs) =
+         match ReportDefs.steps_loop ReportTypes.Regress cfg fs rs with
+         | ReportDefs.RErr => ReportDefs.RErr
+         | ReportDefs.ROk ss =>
+             ReportDefs.ROk (ReportDefs.mksec (ReportTypes.r_name r) 1 (DurationDefs.step_duration r)
+                               (ReportTypes.r_log r) (10 :: render_from false 0 bl) :: ss)
+         end /\
+       (forall rows, let n := length (filter (fun x => negb (ReportTypes.r_exit x =? 0)%Z) rows) in
+          ReportDefs.count_status (r :: rows) =
+            Decimal.render_Z (Z.of_nat (S n)) ++ ReportDefs.str_failure ++
+            (if Nat.ltb 1 (S n) then [115] else []))).
+Proof. exact hence_recorded. Qed.
+Print Assumptions C13_hence_recorded.
 
 (* ---- the model against the source text (Gen_RegressLog.v) -------------------------------- *)
 
@@ -263,6 +444,55 @@ Proof.
            (conj (crlf_subdir_kept l) (crlf_keyword_kept k l)))).
 Qed.
 Print Assumptions C13_nul_and_cr.
+
+(* ---- the last ties: closed by computation on the generated constants in THIS file ---------- *)
+
+(* every switch of the trim loop matters: with the other value the loop is a
+   different function (witness logs of two to four lines) *)
+Theorem C13_trim_switches_matter :
+  trim_with (mktrim 1 0 true false true 10 true) w_two_trailing <> trim w_two_trailing /\
+  trim_with (mktrim 1 0 false true true 10 true) w_lead <> trim w_lead /\
+  trim_with (mktrim 0 0 true true true 10 true) w_lead <> trim w_lead /\
+  trim_with (mktrim 1 0 true true false 10 true) w_middle <> trim w_middle /\
+  trim_with (mktrim 1 0 true true true 10 false) w_trailing <> trim w_trailing.
+Proof. exact trim_variants_differ. Qed.
+Print Assumptions C13_trim_switches_matter.
+
+(* step_exec, the source as it is now: the check comes after the pipeline.  ASSUMING THE
+   SHELL WAITS FOR THE PIPELINE'S LAST COMMAND (tee) before it goes on (POSIX sh
+   2.9.2 "the shell shall wait for the last command specified in the pipeline to
+   complete") the file then holds the complete log, which is what the model
+   takes "after the pipeline" to mean: [seen] - what tee had written when the
+   runner exited - is not read at all, so the quantification over it is over an
+   unused variable and "for every tee schedule" is a property of the model's
+   reading of the shell, not a theorem about bash or ksh.  What IS checked: the
+   position of the check in util.sh (the translated switch; closed by [eq_refl]:
+   should the check move back inside the pipeline, the translator flips the
+   switch and this proof no longer checks) and, on the real step_exec under
+   bash, the late-tee lane of the harness. *)
+Theorem C13_hence_step_exec_holds_now : forall rc log seen,
+  failing_line log ->
+  step_exec_run step_exec_checks_inside_pipeline true rc log seen = 1.
+Proof. exact (hence_step_exec_if_fixed eq_refl). Qed.
+Print Assumptions C13_hence_step_exec_holds_now.
+
+(* report.c gives regress_log_peek / regress_log_parse the flag sets of the Report model *)
+Theorem C13_tie_report_flags :
+  ReportDefs.fl_peek = flags_of_gflags report_peek_flags /\
+  ReportDefs.fl_log true = flags_of_gflags report_log_flags /\
+  ReportDefs.fl_log false = flags_of_gflags (report_log_flags ++ report_log_flags_unless_quiet).
+Proof. exact (conj eq_refl (conj eq_refl eq_refl)). Qed.
+Print Assumptions C13_tie_report_flags.
+
+(* regress_log_trim: [gen_trim] is the loop of regress-log.c as the translator
+   reads it on this run (whole body matched; initial xbeg / xend, leading skip,
+   the `xend == 0` guard, the reset, the line terminator, the final cut as
+   generated constants); the model [trim] of C13_trim IS that loop.  LAST on
+   purpose: a variant of the body the translator knows (e.g. the guard dropped)
+   breaks this theorem and nothing else; an unknown body makes it raise. *)
+Theorem C13_tie_trim : forall file, trim file = gen_trim file.
+Proof. exact (tie_trim_if eq_refl). Qed.
+Print Assumptions C13_tie_trim.
 
 (* non-vacuity: a log with a trace block, two markers, two selected lines *)
 From Coq Require Import String.
